@@ -441,9 +441,14 @@ class BinaryQuadraticModel(QuadraticViewsMixin):
         if isinstance(other, BinaryQuadraticModel):
             if other.num_variables and other.vartype != self.vartype:
                 return NotImplemented  # fallback on __sub__
+            if other is self:
+                other = self.copy()  # otherwise it would be negated along with self
             self.scale(-1)
-            self.update(other)
-            self.scale(-1)
+            try:
+                self.update(other)
+            finally:
+                # also when the update is rejected, e.g. for conflicting bounds
+                self.scale(-1)
             return self
         if isinstance(other, Number):
             self.offset -= other
